@@ -198,7 +198,8 @@ def _worker_main(check_module_name, conn):
         conn.send((idx, res))
 
 
-def run_pool(check_module_name, items, nworkers=None):
+def run_pool(check_module_name, items, nworkers=None, hard_timeout=None):
+    hard_timeout = hard_timeout or HARD_TIMEOUT
     """Own worker pool: one item at a time per worker, a hard wall-clock limit per item (the worker is killed and
     the item recorded as `unknown`), and an address-space limit per worker - a solver that ignores its timeout or
     explodes in memory can neither hang nor take down the run."""
@@ -220,7 +221,8 @@ def run_pool(check_module_name, items, nworkers=None):
     def lost(w, why):
         idx, item = w['item']
         return [{'key': 'lost:%d' % idx, 'verdict': 'unknown', 'detail': why, 'family': item.get('family'),
-                 'input': item.get('program') or item.get('text') or repr(item)[:300], 'twin': item.get('twin', False),
+                 'input': item.get('program') or item.get('text') or item.get('label') or repr(item)[:300],
+                 'twin': item.get('twin', False),
                  'ms': int((time.time() - w['start']) * 1000)}]
 
     for _ in range(nworkers):
@@ -259,8 +261,8 @@ def run_pool(check_module_name, items, nworkers=None):
                         pass
                     workers[i] = spawn()
                     continue
-            if now - w['start'] > HARD_TIMEOUT:
-                out.extend(lost(w, 'hard timeout after %ds: worker killed' % HARD_TIMEOUT))
+            if now - w['start'] > hard_timeout:
+                out.extend(lost(w, 'hard timeout after %ds: worker killed' % hard_timeout))
                 pending -= 1
                 try:
                     w['proc'].kill()
@@ -332,7 +334,7 @@ def run_check(check, tier, seed):
     twins = check.twins(tier, seed)
     for t in twins:
         t['twin'] = True
-    results = run_pool(check.__name__, items + twins)
+    results = run_pool(check.__name__, items + twins, hard_timeout=getattr(check, 'HARD_TIMEOUT', None))
 
     twin_results = [r for r in results if r.get('twin')]
     results = [r for r in results if not r.get('twin')]
